@@ -380,14 +380,18 @@ def match_known(known, doc):
         if k.get("clauses") and clause not in k["clauses"]:
             continue
         pred = k.get("input_predicate")
-        if pred:
-            from . import knownpred
+        if not pred:
+            # a finding is identified by the specific failing input: without a predicate over the inputs nothing is
+            # suppressed here (the carve-out of such a finding lives inside the contract clause itself, restricted
+            # to exactly the known input class), so any OTHER failure of the same clause is still reported
+            continue
+        from . import knownpred
 
-            try:
-                if not knownpred.PREDICATES[pred](doc):
-                    continue
-            except Exception:
+        try:
+            if not knownpred.PREDICATES[pred](doc):
                 continue
+        except Exception:
+            continue
         return k
     return None
 
